@@ -81,6 +81,9 @@ L2_EdgeAgg ==
 \* the oracle's own laws, on every gathered value sequence of the scope
 Laws == \A f \in 1..Len(mesh) : \A r \in 1..4 : ReduceLaws(Gather(mesh[f], rows[r]), 1)
 
+\* the non-finite semantics (NaN, +inf, -inf) obey their laws on every gathered value sequence of the scope
+NonFinite == \A f \in 1..Len(mesh) : \A r \in 2..4 : NonFiniteLaws(Gather(mesh[f], rows[r]), 1)
+
 \* the tracer row really identifies the gathered node set
 TracerReadable ==
     \A f, g \in 1..Len(mesh) :
